@@ -106,21 +106,34 @@ fn install_panic_hook() {
     }));
 }
 
-/// Runs one program on a fresh thread inside an allocator quarantine window.
-pub fn run_isolated(prog: &Program, prop: &'static str, verbose: bool) -> RunResult {
-    if !prog.threads.is_empty() {
-        return threads::run_threads(prog, prop, verbose);
-    }
-    alloc::begin_run();
-    let p2 = prog.clone();
-    let h = std::thread::Builder::new().stack_size(16 << 20).spawn(move || run_program(&p2, prop, verbose)).expect("spawn");
-    let mut res = match h.join() {
+/// How many programs share one thread before it is retired (its thread-locals are then torn down for real).
+/// `CCSIM_RUNS_PER_THREAD=1` gives every program a fresh thread.
+pub fn runs_per_thread() -> u64 {
+    static N: std::sync::OnceLock<u64> = std::sync::OnceLock::new();
+    *N.get_or_init(|| std::env::var("CCSIM_RUNS_PER_THREAD").ok().and_then(|s| s.parse().ok()).unwrap_or(32).max(1))
+}
+
+/// Runs `f` on a new thread with a large stack and waits for it.
+pub fn on_run_thread<R: Send + 'static>(f: impl FnOnce() -> R + Send + 'static) -> R {
+    let h = std::thread::Builder::new().stack_size(16 << 20).spawn(f).expect("spawn");
+    match h.join() {
         Ok(r) => r,
         Err(_) => {
             eprintln!("HARNESS-ERROR: the run thread panicked outside any operation");
             std::process::exit(2);
         }
-    };
+    }
+}
+
+/// Runs one program on the current (run) thread: clean collector state, allocator quarantine window around it.
+pub fn run_isolated(prog: &Program, prop: &'static str, verbose: bool) -> RunResult {
+    if !prog.threads.is_empty() {
+        return threads::run_threads(prog, prop, verbose);
+    }
+    // every run starts from the initial collector state of a fresh thread
+    rust_cc::verif::reset_thread_state();
+    alloc::begin_run();
+    let mut res = run_program(prog, prop, verbose);
     alloc::end_run();
     if let Some(v) = alloc::take_violation() {
         if res.violation.is_none() {
@@ -157,33 +170,57 @@ fn cmd_batch(a: &Args) {
     let sweep_points = a.num("sweep", 0);
     let mut total = Stats::default();
     let mut hashes: Vec<u64> = Vec::new();
+    let mut all_hashes: Vec<u64> = Vec::new();
     let mut samples: Vec<String> = Vec::new();
-    let out = std::io::stdout();
-    for idx in from..to {
-        {
-            let mut o = out.lock();
-            let _ = writeln!(o, "@@START {}", idx);
-            let _ = o.flush();
-        }
-        let prog = gen::generate(&profile, seed, idx);
-        if sweep_points > 0 {
-            let viol = sweep::sweep_program(&prog, prop, sweep_points as usize, &mut total, &mut hashes, &mut samples);
-            if viol {
-                std::process::exit(3);
+    let per = runs_per_thread();
+    let mut lo = from;
+    while lo < to {
+        let hi = (lo + per).min(to);
+        let profile2 = profile.clone();
+        let (t, h, ah, smp) = on_run_thread(move || {
+            let mut total = Stats::default();
+            let mut hashes: Vec<u64> = Vec::new();
+            let mut all_hashes: Vec<u64> = Vec::new();
+            let mut samples: Vec<String> = Vec::new();
+            let out = std::io::stdout();
+            for idx in lo..hi {
+                {
+                    let mut o = out.lock();
+                    let _ = writeln!(o, "@@START {}", idx);
+                    let _ = o.flush();
+                }
+                let prog = gen::generate(&profile2, seed, idx);
+                if sweep_points > 0 {
+                    let viol = sweep::sweep_program(&prog, prop, sweep_points as usize, &mut total, &mut hashes, &mut samples);
+                    if viol {
+                        std::process::exit(3);
+                    }
+                    continue;
+                }
+                let res = run_isolated(&prog, prop, false);
+                if res.violation.is_some() {
+                    std::process::exit(3);
+                }
+                all_hashes.push(res.hash);
+                if res.stats.nontrivial.contains_key(prop) {
+                    hashes.push(res.hash);
+                    if samples.len() < 3 {
+                        samples.push(prog.to_text());
+                    }
+                }
+                total.merge(&res.stats);
             }
-            continue;
-        }
-        let res = run_isolated(&prog, prop, false);
-        if res.violation.is_some() {
-            std::process::exit(3);
-        }
-        if res.stats.nontrivial.contains_key(prop) {
-            hashes.push(res.hash);
+            (total, hashes, all_hashes, samples)
+        });
+        total.merge(&t);
+        hashes.extend(h);
+        all_hashes.extend(ah);
+        for x in smp {
             if samples.len() < 3 {
-                samples.push(prog.to_text());
+                samples.push(x);
             }
         }
-        total.merge(&res.stats);
+        lo = hi;
     }
     if let Some(f) = a.get("hashes") {
         let mut bytes = Vec::with_capacity(hashes.len() * 8);
@@ -191,6 +228,13 @@ fn cmd_batch(a: &Args) {
             bytes.extend_from_slice(&h.to_le_bytes());
         }
         std::fs::write(f, bytes).expect("write hashes");
+    }
+    if let Some(f) = a.get("allhashes") {
+        let mut bytes = Vec::with_capacity(all_hashes.len() * 8);
+        for h in &all_hashes {
+            bytes.extend_from_slice(&h.to_le_bytes());
+        }
+        std::fs::write(f, bytes).expect("write all hashes");
     }
     let samples_json = samples.iter().map(|s| format!("\"{}\"", json_escape(s))).collect::<Vec<_>>().join(",");
     println!("@@DONE {{\"config\":\"{}\",\"stats\":{},\"samples\":[{}]}}", compat::config_name(), total.to_json(), samples_json);
@@ -232,7 +276,8 @@ fn main() {
             if a.has("print") {
                 print!("{}", prog.to_text());
             }
-            let res = run_isolated(&prog, prop, a.has("v"));
+            let v = a.has("v");
+            let res = on_run_thread(move || run_isolated(&prog, prop, v));
             std::process::exit(report(&res, a.has("v")));
         }
         "gen" => {
@@ -250,7 +295,9 @@ fn main() {
                 std::process::exit(2)
             });
             let prop = leak_str(a.get("prop").or(prog.expect.as_ref().map(|e| e.0.as_str())).unwrap_or("C01"));
-            let res = run_isolated(&prog, prop, a.has("v"));
+            let v = a.has("v");
+            let p2 = prog.clone();
+            let res = on_run_thread(move || run_isolated(&p2, prop, v));
             let code = report(&res, a.has("v"));
             if let (Some((ep, eo)), Some(v)) = (&prog.expect, &res.violation) {
                 println!("EXPECTED property={} oracle={} -> {}", ep, eo, if v.oracle.starts_with(eo.as_str()) || eo.starts_with(v.oracle) { "same oracle" } else { "different oracle" });
